@@ -987,10 +987,15 @@ def run(rec):
         loop = _aio.new_event_loop()
         try:
             got = tuple(loop.run_until_complete(_aio.wait_for(both(), 30)))
+        except _aio.TimeoutError:
+            rec.mark_inconclusive('phase W: the two requests did not finish within 30 s of wall-clock time')
+            loop.close()
+            break
         except Exception as ex:  # noqa
             got = ('raised', repr(ex))
         finally:
-            loop.close()
+            if not loop.is_closed():
+                loop.close()
         rec.count('mon.serial_equivalence.W')
         if got not in ((130, 60), (60, 30)):
             rec.violation('serial-executor-results-not-serializable', {'phase': 'W', 'start': 100, 'deposit': 30, 'withdraw': 70,
@@ -1024,7 +1029,10 @@ def run(rec):
             for t in ths:
                 t.join(30)
             if any(t.is_alive() for t in ths):
-                rec.violation('stress-request-never-completes', {'phase': 'D', 'requests': [r['path'] for r in reqs]})
+                # a wall-clock watchdog is never a verdict (the machine may simply be overloaded): deadlocks are
+                # decided by the controlled scheduler of phases A/A2/B, where 'nobody can run' is a logical fact
+                rec.mark_inconclusive('phase D: a request thread did not finish within 30 s of wall-clock time: %s'
+                                      % [r['path'] for r in reqs])
                 break
             rec.count('mon.serial_equivalence.D')
             if tuple(out) != expect:
